@@ -161,6 +161,40 @@ def _ways():
         g(t)
         return g(t), ["title"]
 
+    def after_remove_class(s):
+        # remove_class rewrites the class value; what is left must still be escaped when rendered
+        if s == "" or any(c.isspace() for c in s):
+            return g(Tag("div", class_=s)), ["class"]
+        return g(Tag("div", class_=s + " zz").remove_class("zz")), ["class"]
+
+    def after_remove_class_first(s):
+        if s == "" or any(c.isspace() for c in s):
+            return g(Tag("div", class_=s)), ["class"]
+        return g(Tag("div", class_="zz " + s).remove_class("zz")), ["class"]
+
+    def via_consolidate_attrs(s):
+        from htmltools import consolidate_attrs
+        attrs, kids = consolidate_attrs({"class": s}, "kid", class_=HTML("h"))
+        return g(Tag("div", attrs, *kids)), ["class"]
+
+    def via_consolidate_plain(s):
+        from htmltools import consolidate_attrs
+        attrs, kids = consolidate_attrs({"title": s}, id="i")
+        return g(Tag("div", attrs, *kids)), ["title", "id"]
+
+    def via_other_tags_attrs(s):
+        other = Tag("i", title=s)
+        return g(Tag("div", other.attrs, class_="c")), ["title", "class"]
+
+    def url_attr_href(s):
+        return g(Tag("a", href=s)), ["href"]
+
+    def url_attr_src(s):
+        return g(Tag("img", src=s)), ["src"]
+
+    def url_attr_action(s):
+        return g(Tag("form", action=s)), ["action"]
+
     def renamed_from_script(s):
         t = Tag("script", data_x=s)
         t.name = "div"
@@ -176,7 +210,9 @@ def _ways():
           add_class_prepend_html, add_html_class_onto_plain, add_style, add_style_onto_html,
           add_style_prepend, add_html_style_onto_plain, via_str, indented, on_script_tag,
           on_style_tag, on_script_add_class, after_same_string_as_text,
-          after_same_string_in_html_merge, rendered_twice, renamed_from_script)
+          after_same_string_in_html_merge, rendered_twice, renamed_from_script, after_remove_class,
+          after_remove_class_first, via_consolidate_attrs, via_consolidate_plain, via_other_tags_attrs,
+          url_attr_href, url_attr_src, url_attr_action)
     return {f.__name__: f for f in fs}
 
 
@@ -266,7 +302,8 @@ def fn_string(chars):
     return (any(c in ATTR_MUST for c in s), None, viols)
 
 
-SPECIALS = [["true"], ["none"], ["false"], ["num", 5], ["num", 2.5], ["num", 0],
+SPECIALS = [["true"], ["none"], ["false"], ["num", 5], ["num", 2.5], ["num", 0], ["num", 0.0], ["num", -1],
+            ["num-merge"], ["num-update"],
             ["merge-none"], ["merge-true"], ["update-none"]]
 
 
@@ -288,6 +325,12 @@ def fn_special(case):
         expect(Tag("div", title=False, id="i"), '<div id="i"></div>')
     elif k == "num":
         expect(Tag("div", width=case[1]), f'<div width="{case[1]}"></div>')
+    elif k == "num-merge":
+        expect(Tag("div", {"x": 5}, {"x_": 0}, x=7), '<div x="5 0 7"></div>')
+    elif k == "num-update":
+        t = Tag("div", k="old")
+        t.attrs["k"] = 0
+        expect(t, '<div k="0"></div>')
     elif k == "merge-none":
         expect(Tag("div", {"class": None}, class_="k"), '<div class="k"></div>')
     elif k == "merge-true":
